@@ -281,5 +281,5 @@ pub fn case() -> impl Strategy<Value = Case> {
 }
 
 fn groups(g: &mut Groups) {
-    g.prop("twin", 24_000, 300_000, || case(), check_case);
+    g.prop("twin", 24_000, 1_800_000, || case(), check_case);
 }
